@@ -342,6 +342,16 @@ class Interp(S.SeqRun):
             ok, got = self.read(base + tag, lambda: ih in getattr(h, sa.name))
             if ok:
                 self.expect(base + tag, got, it in self.view.partners(sa, mo.mid))
+                # C12 through the public API: the other end must give the same answer
+                rev = sa.reverse
+                if rev.is_set:
+                    ok2, other = self.read(base + tag + ' [reverse end]', lambda: h in getattr(ih, rev.name))
+                else:
+                    ok2, other = self.read(base + tag + ' [reverse end]', lambda: getattr(ih, rev.name) is h)
+                if ok2 and bool(other) != bool(got):
+                    self.viol('C12', 'ends-disagree-through-api', '%s.%s' % (mo.ent, sa.name),
+                              '%s%s: %s#%d.%s says %r but the reverse end %s#%d.%s says %r'
+                              % (base, tag, mo.ent, mo.mid, sa.name, got, sa.rel, it, rev.name, other))
 
         contains(' (before)')
         present = it in self.view.partners(sa, mo.mid)
@@ -718,6 +728,7 @@ class Interp(S.SeqRun):
             return
         if self.dup_pending is not None:
             self.probe('duplicate_reported_at_flush')
+            self.key_conflict_reported = True
             return
         integrity = isinstance(e, S.INTEGRITY) or any(isinstance(x, S.INTEGRITY) for x in _chain(e))
         if isinstance(e, (AssertionError, KeyError, AttributeError, IndexError, TypeError)):
@@ -816,6 +827,7 @@ class Interp(S.SeqRun):
     # ------------------------------------------------------------------ one session
     def run_session(self, si, sess):
         self.sess_index = si
+        self.key_conflict_reported = False
         self.view = self.committed.clone()
         self.handles = {}
         self.h2m = {}
